@@ -123,6 +123,10 @@ PYTH = [(3, 4), (5, 12), (8, 15), (7, 24), (20, 21), (1, 0), (0, 1), (-3, 4), (4
 def _rand_case(rng):
     n = rng.choice([2, 2, 3, 3, 4, 5, 6, 7, 8, 9, 10, 11, 12])
     style = rng.choice(["log", "log", "log", "lattice", "mixed", "mm", "far", "same_pos", "same_time", "unit"])
+    if rng.random() < 0.012:
+        # larger scale: a log of a thousand fixes and more
+        n = rng.choice([1000, 1001, 1500, 2500, 4001])
+        style = rng.choice(["log", "unit", "lattice", "mm"])
     x, y, z = rng.choice([(0.0, 0.0, 0.0), (rng.uniform(-1e3, 1e3), rng.uniform(-1e3, 1e3), rng.uniform(-50, 50)),
                           (5.0e5, -2.0e5, 100.0)])
     pts = [[x, y, z]]
@@ -168,7 +172,14 @@ def _rand_case(rng):
             dt = rng.choice([0, 0, 1, 10, 1000, 1000, 60000, 3600000, rng.randrange(1, 100000), 999, 1001])
         ms.append(ms[-1] + dt)
     order = rng.choice(["abs_curv_first", "speed_first"])
-    return {"kind": "track", "pts": pts, "ms": ms, "order": order}
+    c = {"kind": "track", "pts": pts, "ms": ms, "order": order}
+    if rng.random() < 0.2:
+        # the calendar fields of the timestamps held as numpy integers (taken out of an array); coordinates of the
+        # lattice style held as Python ints
+        c["numpy_time_fields"] = 1
+        if style == "lattice" and all(float(v).is_integer() for p in pts for v in p):
+            c["pts"] = [[int(v) for v in p] for p in pts]
+    return c
 
 
 def cases(chunk):
@@ -322,6 +333,15 @@ def run_case(case, ctx):
     sig = ("track", tuple(tuple(p) for p in pts), tuple(ms), order)
 
     tr = gen.make_track([tuple(p) for p in pts], ms)
+    if n >= 1000:
+        cls.append("track_of_1000+_fixes")
+    if case.get("numpy_time_fields"):
+        import numpy as np
+        from tracklib.core.obs_time import ObsTime
+        for i in range(n):
+            f = gen.fields_from_ms(ms[i])
+            tr.getObs(i).timestamp = ObsTime(*[np.int64(v) for v in f])
+        cls.append("timestamp_fields_held_as_numpy_ints")
     if (n + int(ms[-1] // 100)) % 4 == 3:
         tr, _how = gen.derive(tr, (pts, ms), allow=gen.DERIVE_HOWS + ["hidden_slots", "hidden_slots"])
     before = _snapshot(tr)
@@ -499,7 +519,8 @@ def classify(case, witness):
 
 # floors for the call-history workloads added in session 3 (a run in which they were silently skipped is inconclusive)
 _floors_base = floors
-_FLOORS_EXTRA = {'monitors': {'abs_curv_after_trimming': 1000}}
+_FLOORS_EXTRA = {'monitors': {'abs_curv_after_trimming': 1000},
+                 'classes': {'track_of_1000+_fixes': 20, 'timestamp_fields_held_as_numpy_ints': 500}}
 
 
 def floors(tier):
